@@ -90,6 +90,8 @@ fn timeout_handler(data: TimerData) {
         return;
     }
 
+    #[cfg(may_verif)]
+    crate::verif::label("io.timeout_handler.live", 0);
     let event_data = unsafe { &mut *data.event_data };
     // remove the event timer
     event_data.timer.borrow_mut().take();
